@@ -311,6 +311,12 @@ def run_cases(mod, tier, seed, budget_s, nproc=None):
     if k:
         extra = [dict(c, via='history' if (i // k) % 2 == 0 else 'history2') for i, c in enumerate(cases)
                  if i % k == 0 and isinstance(c, dict) and isinstance(c.get('shape'), dict) and 'via' not in c]
+        # ... and every 2k-th one (offset k/2) on an object built through another documented construction route
+        # (tuple properties, unweighted / weights / 2-D grid views, pickle round trip, deep copy)
+        from . import shapes as _shapes
+        off = max(1, k // 2)
+        extra += [dict(c, via='route:' + _shapes.ROUTES[(i // (2 * k)) % len(_shapes.ROUTES)]) for i, c in enumerate(cases)
+                  if i % (2 * k) == off and isinstance(c, dict) and isinstance(c.get('shape'), dict) and 'via' not in c]
         cases.extend(extra)
     known = load_known(mod.PROPERTY)
     ctx = Ctx(mod.PROPERTY, tier, seed, known=known)
